@@ -17,13 +17,16 @@ inductive Arg where
   | reg (x : Bool) (n : Nat)     -- `W0 + Reg(n)` (x = false) / `X0 + Reg(n)` (x = true)
   | cond (c : Nat)               -- `Cond{c, false}`
   | imm (v : Nat)                -- `Imm{v, true}`
+  | imm64 (v : BitVec 64)        -- `Imm64{v, false}`
+  | immShift (imm shift : Nat)   -- `ImmShift{imm, shift}`
+  | mem (rn : Nat) (off : Int)   -- `MemImmediate{RegSP(X0)+rn, AddrOffset, off}`
   | other                        -- non-nil argument of a kind the model does not interpret
   deriving DecidableEq, Repr
 
-/-- the uninterpreted part of the decoder: `canDecode` of row `i` on word `x`, and "decodeArg(kind, x) ≠ nil" for
+/-- the uninterpreted part of the decoder: `canDecode` of row `i` (predicate id `c`, see `Gen.A64.condNames`) on word `x`, and "decodeArg(kind, x) ≠ nil" for
     argument kinds the model does not interpret (indexed by row too, which only makes the oracle more general). -/
 structure Env where
-  condOk : Nat → BitVec 32 → Bool
+  condOk : Nat → Nat → BitVec 32 → Bool
   argOk : Nat → Nat → BitVec 32 → Bool
 
 /-- decode.go:181 `case arg_slabel_imm14_2`: `PCRel(((int64(imm14) << 2) << 48) >> 48)` -/
@@ -55,6 +58,11 @@ def slabel_immhi_immlo_12 (x : BitVec 32) : BitVec 64 :=
   let immhilo : BitVec 32 := (immhi <<< 2) ||| immlo
   (((immhilo.setWidth 64) <<< 12) <<< 31).sshiftRight 31
 
+/-- `imm16 := (x >> 5) & (1<<16 - 1)` -/
+def imm16 (x : BitVec 32) : BitVec 32 := (x >>> 5) &&& 0xffff#32
+/-- `hw := (x >> 21) & (1<<2 - 1)` -/
+def hw (x : BitVec 32) : BitVec 32 := (x >>> 21) &&& 0x3#32
+
 /-- a 5-bit register field `(x >> lo) & 31` -/
 def r5 (x : BitVec 32) (lo : Nat) : Nat := ((x >>> lo) &&& 0x1f#32).toNat
 
@@ -62,7 +70,7 @@ def r5 (x : BitVec 32) (lo : Nat) : Nat := ((x >>> lo) &&& 0x1f#32).toNat
 inductive Kind where
   | slabel14 | slabel19 | slabel26 | slabelAdr | slabelAdrp
   | Xd | Xn | Xm | Xa | Xt | Xt2 | Xs | Wd | Wn | Wm | Wa | Wt | Wt2 | Ws
-  | conditional | Rt31 | immB5B40
+  | conditional | Rt31 | immB5B40 | immShift64 | optLSL48 | memImm12x8
   deriving DecidableEq, Repr
 
 /-- numeric `instArg` value (regenerated, `Gen.A64.arg_*`) → interpreted kind; `none` = not interpreted by the model -/
@@ -81,6 +89,9 @@ def kindOf (k : Nat) : Option Kind :=
   else if k = arg_conditional then some .conditional
   else if k = arg_Rt_31_1__W_0__X_1 then some .Rt31
   else if k = arg_immediate_0_63_b5_b40 then some .immB5B40
+  else if k = arg_immediate_shift_64_implicit_imm16_hw then some .immShift64
+  else if k = arg_immediate_OptLSL_amount_16_0_48 then some .optLSL48
+  else if k = arg_Xns_mem_optional_imm12_8_unsigned then some .memImm12x8
   else none
 
 /-- `decodeArg` (decode.go:83) for the interpreted kinds; none of these cases can return nil in the source. -/
@@ -108,6 +119,12 @@ def interpK (kd : Kind) (x : BitVec 32) : Arg :=
   | .conditional => .cond ((x &&& 0xf#32).toNat)                                   -- decode.go:626
   | .Rt31 => .reg (((x >>> 31) &&& 1#32) != 0#32) (r5 x 0)                         -- decode.go:613
   | .immB5B40 => .imm (((((x >>> 31) &&& 1#32) <<< 5) ||| ((x >>> 19) &&& 0x1f#32)).toNat)   -- decode.go:334
+  -- decode.go:548  shift := hw * 16; result := uint64(imm16) << shift; Imm64{result, false}
+  | .immShift64 => .imm64 (((imm16 x).setWidth 64) <<< (hw x * 16#32).toNat)
+  -- decode.go:471  ImmShift{uint16(imm16), uint8(hw * 16)}
+  | .optLSL48 => .immShift ((imm16 x).setWidth 16).toNat ((hw x * 16#32).setWidth 8).toNat
+  -- decode.go:236  MemImmediate{RegSP(X0) + RegSP(x>>5&31), AddrOffset, int32(imm12 << 3)}
+  | .memImm12x8 => .mem (r5 x 5) (((((x >>> 10) &&& 0xfff#32) <<< 3).setWidth 32).toInt)
 
 /-- `none` here means "kind not interpreted by the model", NOT "nil". -/
 def interp (k : Nat) (x : BitVec 32) : Option Arg := (kindOf k).map (fun kd => interpK kd x)
@@ -130,6 +147,18 @@ def decodeArgs (env : Env) (row : Nat) : List Nat → BitVec 32 → Option (List
       | none => none
       | some a => (decodeArgs env row ks x).map (a :: ·)
 
+/-- the `canDecode` predicates (condition.go) the model interprets; `none` = left to the oracle -/
+def interpCond (c : Nat) : Option (BitVec 32 → Bool) :=
+  -- condition.go:111 `!(is_zero((instr>>5)&0xffff) && (instr>>21)&0x3 != 0x0)`
+  if c = cond_mov_movz_64_movewide_cond then some (fun x => !(imm16 x == 0#32 && hw x != 0#32))
+  else none
+
+/-- `f.canDecode(x)` -/
+def condVal (env : Env) (i c : Nat) (x : BitVec 32) : Bool :=
+  match interpCond c with
+  | some f => f x
+  | none => env.condOk i c x
+
 /-- a successful decode: the table row that matched, its `op`, the decoded arguments -/
 structure Res where
   row : Nat
@@ -142,7 +171,7 @@ def decodeFrom (env : Env) : List Row → Nat → BitVec 32 → Option Res
   | [], _, _ => none                                                     -- decode.go:78 errUnknown
   | r :: rs, i, x =>
     if x &&& r.mask != r.value then decodeFrom env rs (i + 1) x          -- decode.go:51
-    else if r.cond && !env.condOk i x then decodeFrom env rs (i + 1) x   -- decode.go:54
+    else if r.cond && !condVal env i r.condId x then decodeFrom env rs (i + 1) x   -- decode.go:54
     else match decodeArgs env i r.args x with
       | none => decodeFrom env rs (i + 1) x                              -- decode.go:65 continue Search
       | some as => some ⟨i, r.op, as⟩                                    -- decode.go:71
@@ -172,13 +201,19 @@ def argsOf : List Nat → BitVec 32 → List Arg
     | some a => a :: argsOf ks x
     | none => []
 
-/-- `some r`: every oracle gives `r` (first mask-matching row has no predicate and only interpreted kinds, or no row
+/-- `some r`: every oracle gives `r` (first mask-matching row has no (or an interpreted, true) predicate and only interpreted kinds, or no row
     mask-matches at all); `none`: the answer depends on the uninterpreted part. -/
 def decodeDefFrom : List Row → Nat → BitVec 32 → Option (Option Res)
   | [], _, _ => some none
   | r :: rs, i, x =>
     if x &&& r.mask != r.value then decodeDefFrom rs (i + 1) x
-    else if r.cond || !argsInterpreted r.args then none
+    else if r.cond then
+      match interpCond r.condId with
+      | none => none
+      | some f =>
+        if f x then (if argsInterpreted r.args then some (some ⟨i, r.op, argsOf r.args x⟩) else none)
+        else decodeDefFrom rs (i + 1) x
+    else if !argsInterpreted r.args then none
     else some (some ⟨i, r.op, argsOf r.args x⟩)
 
 def decodeDef (x : BitVec 32) : Option (Option Res) := decodeDefFrom table 0 x
@@ -186,7 +221,7 @@ def decodeDef (x : BitVec 32) : Option (Option Res) := decodeDefFrom table 0 x
 /-- the oracle that lets exactly row `c` through (all others with a predicate or an uninterpreted kind are skipped):
     the witness used by the driver to validate an observation "the real decoder chose row c". -/
 def claimEnv (c : Option Nat) : Env :=
-  { condOk := fun i _ => c == some i, argOk := fun i _ _ => c == some i }
+  { condOk := fun i _ _ => c == some i, argOk := fun i _ _ => c == some i }
 
 /-! ### the scans of internal/bytecode/func_arm64.go -/
 
